@@ -217,9 +217,16 @@ class ClientWebSocketResponse(Generic[_DecodeText]):
         self._set_closed()
         self._close_code = WSCloseCode.ABNORMAL_CLOSURE
         self._exception = exc
-        self._response.close()
+        self._abort()
         if self._waiting and not self._closing:
             self._reader.feed_data(WSMessageError(data=exc, extra=None))
+
+    def _abort(self) -> None:
+        """Drop the connection without waiting for buffered data."""
+        conn = self._response.connection
+        if conn is not None and conn.transport is not None:
+            conn.transport.abort()
+        self._response.close()
 
     def _set_closed(self) -> None:
         """Set the connection to closed.
@@ -335,12 +342,12 @@ class ClientWebSocketResponse(Generic[_DecodeText]):
             await self._writer.close(code, message)
         except asyncio.CancelledError:
             self._close_code = WSCloseCode.ABNORMAL_CLOSURE
-            self._response.close()
+            self._abort()
             raise
         except Exception as exc:
             self._close_code = WSCloseCode.ABNORMAL_CLOSURE
             self._exception = exc
-            self._response.close()
+            self._abort()
             return True
 
         # The peer's CLOSE was already received (its status code may be
@@ -361,12 +368,12 @@ class ClientWebSocketResponse(Generic[_DecodeText]):
                         return True
         except asyncio.CancelledError:
             self._close_code = WSCloseCode.ABNORMAL_CLOSURE
-            self._response.close()
+            self._abort()
             raise
         except Exception as exc:
             self._close_code = WSCloseCode.ABNORMAL_CLOSURE
             self._exception = exc
-            self._response.close()
+            self._abort()
             return True
 
     @overload
